@@ -1,0 +1,78 @@
+//! Verification hooks. Compiled only with the `verif` cargo feature; never part of a normal build.
+//!
+//! The hooks turn "macro expansion does not terminate" into a deterministic, load-independent
+//! event: every work-list loop of the compilation pipeline calls [`tick`], and once the number of
+//! ticks of one `lexer!` expansion passes the budget the expansion panics with a recognizable
+//! message (which rustc reports as a compile error attributed to that `lexer!` invocation).
+
+use std::cell::Cell;
+use std::io::Write;
+
+thread_local! {
+    static TICKS: Cell<u64> = const { Cell::new(0) };
+    static BUDGET: Cell<u64> = const { Cell::new(0) };
+}
+
+const DEFAULT_BUDGET: u64 = 50_000_000;
+
+/// Resets the tick counter when created; on drop appends `lexer=<name> ticks=<n>` to the file
+/// named by `LEXGEN_VERIF_STATS`, if set.
+pub struct Guard {
+    name: String,
+}
+
+impl Guard {
+    pub fn new() -> Guard {
+        TICKS.with(|t| t.set(0));
+        let budget = std::env::var("LEXGEN_VERIF_STEP_BUDGET")
+            .ok()
+            .and_then(|s| s.parse::<u64>().ok())
+            .unwrap_or(DEFAULT_BUDGET);
+        BUDGET.with(|b| b.set(budget));
+        Guard {
+            name: String::new(),
+        }
+    }
+
+    pub fn set_name(&mut self, name: String) {
+        self.name = name;
+    }
+}
+
+impl Drop for Guard {
+    fn drop(&mut self) {
+        if let Ok(path) = std::env::var("LEXGEN_VERIF_STATS") {
+            if let Ok(mut file) = std::fs::OpenOptions::new()
+                .create(true)
+                .append(true)
+                .open(path)
+            {
+                let ticks = TICKS.with(|t| t.get());
+                let panicking = std::thread::panicking();
+                let _ = writeln!(
+                    file,
+                    "lexer={} ticks={} panicking={}",
+                    self.name, ticks, panicking
+                );
+            }
+        }
+    }
+}
+
+/// Count one step of a work-list loop. Panics when the budget of the current expansion is
+/// exceeded.
+pub fn tick(site: &'static str) {
+    let ticks = TICKS.with(|t| {
+        let n = t.get() + 1;
+        t.set(n);
+        n
+    });
+    let budget = BUDGET.with(|b| b.get());
+    let budget = if budget == 0 { DEFAULT_BUDGET } else { budget };
+    if ticks > budget {
+        panic!(
+            "lexgen-verif: step budget exceeded at {} ({} steps)",
+            site, ticks
+        );
+    }
+}
